@@ -227,7 +227,8 @@ CLAIMS = {
                 "layout; every key and value the implementation writes in the explored histories is decoded AND re-encoded by the "
                 "reference codec of the model, byte for byte, and every stored vector has the length the layout prescribes for the vector as "
                 "written (dimensions on both sides of the 64-component word); raw keys of real operations over the boundary lattice compared; "
-                "golden fixtures of all 7 metrics are loaded, read, searched, updated and rebuilt.",
+                "golden fixtures of all 7 metrics are loaded, read, searched, updated and rebuilt. Every entry of every database reachable by a "
+                "history is proved to round-trip through the byte codec, with the dump strictly increasing in byte order (C16_reachable_*).",
         "note": COMMON_NOTE + " Little-endian host assumed for native-endian fields. The roaring serialisation round-trip is a theorem for array and bitmap containers (what roaring-rs 0.10 writes); run containers are not modelled.",
         "technique": "Lean 4 theorems (all keys) + extractor obligation + differential decode/re-encode of every dump",
     },
